@@ -9,7 +9,7 @@ theorem kd_derive_common_sk (mk r : Bytes) : Gen.kd.derive_common_sk mk r = deri
   unfold Gen.kd.derive_common_sk deriveCommonSk
   simp only [tools_ecb, tools_adjust, bind, Except.bind, pure, Except.pure]
   repeat (first | rfl | split)
-  all_goals simp_all
+  all_goals first | (simp_all; done) | slice_forms
 
 /-- **C04 (common session key) about the translated source** -/
 theorem source_derive_common_sk (mk r : Bytes) (hmk : mk.length = 16) (hr : r.length = 8) :
